@@ -259,11 +259,17 @@ NotInScripts == {"BLPOP", "BRPOP", "SUBSCRIBE", "UNSUBSCRIBE", "PSUBSCRIBE", "PU
   "SLAVEOF", "REPLCONF", "CONFIG", "CLIENT", "EVAL", "EVALSHA", "SCRIPT", "SLEEP", "?"}
 
 (* RESP reply -> Lua value -> RESP reply (applied to expected-reply patterns) *)
+(* A Lua number is a double: an integer reply beyond 2^53 loses its low digits on the way through the script, so
+   which integer comes back is not prescribed. *)
+TwoTo53 == [neg |-> FALSE, d |-> <<9,0,0,7,1,9,9,2,5,4,7,4,0,9,9,2>>]
+Inexact(b) == IsInt(b) /\ MagCmp(IntOf(b).d, TwoTo53.d) > 0
+LuaInt(r) == IF Inexact(r.v) THEN RAnyInt ELSE r
 RECURSIVE Conv(_)
 Conv(r) ==
   CASE r.t \in {"nil", "nilarr"} -> RNil
     [] r.t = "arr" -> RArr([i \in 1..Len(r.v) |-> Conv(r.v[i])])
     [] r.t = "oneof" -> ROneOf({Conv(x) : x \in r.v})
+    [] r.t = "int" -> LuaInt(r)
     [] OTHER -> r
 
 (* Lua constant -> RESP reply *)
@@ -325,8 +331,8 @@ Utf8From(b, i) ==
 IsUtf8(b) == Utf8From(b, 1)
 
 (* run statements i.. ; result: set of [r, S, dv]; fz: ferrous' conversions (see above) *)
-RECURSIVE RunProg(_, _, _, _, _, _, _, _)
-RunProg(S, c, prog, i, keys, args, tm, fz) ==
+RECURSIVE RunProg(_, _, _, _, _, _, _, _, _)
+RunProg(S, c, prog, i, keys, args, tm, fz, robs) ==
   IF i > Len(prog) THEN SOut(RNil, S)                       \* fell off the end: nil
   ELSE LET st == prog[i] IN
     IF st.k = "const" THEN SOut(IF fz THEN LuaConstF(st.v) ELSE LuaConst(st.v), S)
@@ -336,12 +342,12 @@ RunProg(S, c, prog, i, keys, args, tm, fz) ==
              outs == IF name \in NotInScripts THEN SFail(S)
                      ELSE IF binary /\ "script_binary" \in Deviations
                      THEN {[r |-> RErr, S |-> S, dv |-> {"script_binary"}]}
-                     ELSE Exec1(S, c, argv, tm, NoObs, TRUE)
+                     ELSE Exec1(S, c, argv, tm, IF st.ret = 1 THEN robs ELSE NoObs, TRUE)
          IN UNION {
               IF o.r.t = "err" /\ st.k = "call" THEN {[r |-> RErr, S |-> o.S, dv |-> o.dv]}          \* raised: script aborted
               ELSE IF st.ret = 1
               THEN {[r |-> IF fz THEN (IF o.r.t = "err" THEN RNil ELSE ConvF(o.r)) ELSE Conv(o.r), S |-> o.S, dv |-> o.dv]}
-              ELSE {[x EXCEPT !.dv = @ \cup o.dv] : x \in RunProg(o.S, c, prog, i + 1, keys, args, tm, fz)}
+              ELSE {[x EXCEPT !.dv = @ \cup o.dv] : x \in RunProg(o.S, c, prog, i + 1, keys, args, tm, fz, robs)}
               : o \in outs}
 
 (* EVAL script numkeys key... arg...  /  EVALSHA sha numkeys key... arg... *)
@@ -358,9 +364,9 @@ CmdEVAL(S, c, a, tm, obs, bysha) ==
          SOut(ROneOf({RErr, RNil}), S)
     ELSE LET keys == Sub(a, 4, 3 + nk) args == Sub(a, 4 + nk, Len(a))
              S1 == IF bysha THEN S ELSE [S EXCEPT !.scripts = @ \cup {obs.sha}]
-         IN RunProg(S1, c, obs.prog, 1, keys, args, tm, FALSE)
+         IN RunProg(S1, c, obs.prog, 1, keys, args, tm, FALSE, obs.r)
             \cup (IF "script_conv" \in Deviations
-                  THEN {[o EXCEPT !.dv = @ \cup {"script_conv"}] : o \in RunProg(S1, c, obs.prog, 1, keys, args, tm, TRUE)}
+                  THEN {[o EXCEPT !.dv = @ \cup {"script_conv"}] : o \in RunProg(S1, c, obs.prog, 1, keys, args, tm, TRUE, obs.r)}
                   ELSE {})
 
 (* SCRIPT LOAD body | SCRIPT EXISTS sha... | SCRIPT FLUSH *)
